@@ -270,7 +270,7 @@ func genScenario(e *Env, i int) cliScenario {
 			if usedS > 6 {
 				continue
 			}
-			cp.Prior = []string{"absent", "identical", "stale", "garbage", "dirsquat", "longer", "shorter"}[r.Intn(7)]
+			cp.Prior = []string{"absent", "identical", "stale", "garbage", "dirsquat", "longer", "shorter", "crlf", "no-final-newline"}[r.Intn(9)]
 		case 'F':
 			cp = cliPkg{P: cliF((i + usedF) % 4), Class: 'F'}
 			usedF++
@@ -377,6 +377,15 @@ func runCLI(e *Env, rep *Report, rc *refCache, s cliScenario, cmd string, mu *sy
 			// what gen would write, followed by more (an injector that has since been removed)
 			if p.Class == 'S' {
 				os.WriteFile(out, append(append([]byte(nil), refs[p.P.ID]...), []byte("\n// LeftOver was generated for an injector that is gone.\nfunc LeftOver() int {\n\treturn 1\n}\n")...), 0o644)
+			}
+		case "crlf":
+			// what gen would write, with CRLF line ends
+			if p.Class == 'S' {
+				os.WriteFile(out, []byte(strings.ReplaceAll(string(refs[p.P.ID]), "\n", "\r\n")), 0o644)
+			}
+		case "no-final-newline":
+			if p.Class == 'S' {
+				os.WriteFile(out, []byte(strings.TrimSuffix(string(refs[p.P.ID]), "\n")), 0o644)
 			}
 		case "shorter":
 			// what gen would write, cut off after the last complete declaration but one
